@@ -132,9 +132,9 @@ package bgv
 
 // integer encoder, opaque at the abstract level (used by the masked transform of mpbgv, property C16)
 //@ afunc Encoder.RingT2Q
-//@   trusted opaque at the abstract level: lifts a plaintext polynomial of R_t to R_Q (coefficient domain, not Montgomery)
+//@   trusted opaque at the abstract level: lifts a plaintext polynomial of R_t to R_Q (coefficient domain, not Montgomery); the lift is NAMED (uf_lift) as a function of the plaintext polynomial
 //@   assigns pQ
-//@   ensures dom(pQ) == 0 && mexp(pQ) == 0
+//@   ensures dom(pQ) == 0 && mexp(pQ) == 0 && val(pQ) == uf_lift(old(val(pT)))
 //@ afunc Encoder.EncodeRingT
 //@   trusted opaque at the abstract level: writes the plaintext polynomial only
 //@   assigns pT
@@ -474,3 +474,8 @@ package bgv
 //@   let g = uf_gk(contentid(eval.Evaluator.EvaluationKeySet), ge)
 //@   let I = contentid(eval.Evaluator.automorphismIndex[ge])
 //@   ensures implies(isnil(err), val(opOut.Value[0]) == uf_automidx(old(val(op0.Value[0])) + uf_gp0(old(val(op0.Value[1])), g), I) && val(opOut.Value[1]) == uf_automidx(uf_gp1(old(val(op0.Value[1])), g), I))
+//@ afunc Encoder.RingQ2T
+//@   trusted opaque at the abstract level: reduces a polynomial of R_Q (coefficient domain) to R_t; the reduction is NAMED (uf_q2t) as a function of the polynomial
+//@   requires iscoef(pQ)
+//@   assigns pT
+//@   ensures dom(pT) == 0 && mexp(pT) == 0 && val(pT) == uf_q2t(old(val(pQ)))
